@@ -57,6 +57,9 @@ Explained1(e, M) ==
     \* interpolation at the dyadic point p / 2^(sx + r): exact
     [] e.op = "interp" -> LET RM == Refine1(M, 2 ^ e.r)
                           IN IF InGrid(RM.xn, e.p) THEN Read(e, M) /\ e.rr = Interp1(RM, e.p) ELSE Unchanged(e, M)
+    \* interpolation at the dyadic point x_node + s / 2^(sx + r), given relative to a node (grids with very wide cells): exact
+    [] e.op = "interp_off" -> IF InRange1(M, e.node) /\ OffCellOK(M, e.node, e.s, e.r)
+                                THEN Read(e, M) /\ e.rr = InterpOff(M, e.node, e.s, e.r) ELSE Unchanged(e, M)
     \* the same on a grid whose cell widths are not powers of two (model-generated grids): the f64 value, rounded to
     \* 2^-20, must be within one such unit of the model's rational
     [] e.op = "interp_q" -> LET RM == Refine1(M, 2 ^ e.r)
